@@ -1829,3 +1829,250 @@ func ruleSelfRemoved(e *Engine, r *Report) {
 			reqAll("", reqBool("", e.callV(isW), true), reqBool("", inMap(witnesses), true)),
 			reqAll("", reqBool("", e.callV(isNV), false), reqBool("", e.callV(isW), false), reqBool("", inMap(remotes), true))))
 }
+
+// ruleCampaignPredicateUpper (C17): the election guard may answer "a config
+// change is waiting to be applied" only when committed > applied - any
+// further condition (e.g. an uncommitted config change somewhere in the log)
+// can keep a healthy majority from ever electing a leader.
+func ruleCampaignPredicateUpper(e *Engine, r *Report) {
+	hasCC := r.need(raftT + "hasConfigChangeToApply")
+	committed := r.needField("internal/raft", "entryLog", "committed")
+	applied := r.needField("internal/raft", "raft", "applied")
+	if hasCC == nil || committed == nil || applied == nil {
+		return
+	}
+	getApplied := e.Func(raftT + "getApplied")
+	var appliedV VM = func(v ssa.Value) bool {
+		return fieldV(applied)(v) || (getApplied != nil && e.callV(getApplied)(v))
+	}
+	hook := e.Field("internal/raft", "raft", "hasNotAppliedConfigChange")
+	exempt := func(v ssa.Value) bool {
+		c, ok := stripConv(v).(*ssa.Call)
+		return ok && hook != nil && fieldV(hook)(c.Call.Value)
+	}
+	r.returnsOnlyUnder("GD-campaign-pred", fname(hasCC)+" (upper bound)", hasCC, 0, true, exempt,
+		reqCmp("committed > applied", ">", fieldV(committed), appliedV))
+}
+
+// ruleAppliedPair (C19): after an apply acknowledgement the in-memory log
+// remembers (index, term) of the last applied entry - both taken from the
+// same entry.
+func ruleAppliedPair(e *Engine, r *Report) {
+	fn := r.need("(*internal/raft.inMemory).appliedLogTo")
+	idxF := r.needField("internal/raft", "inMemory", "appliedToIndex")
+	termF := r.needField("internal/raft", "inMemory", "appliedToTerm")
+	eIndex := e.Field("raftpb", "Entry", "Index")
+	eTerm := e.Field("raftpb", "Entry", "Term")
+	if fn == nil || idxF == nil || termF == nil || eIndex == nil || eTerm == nil {
+		return
+	}
+	// the entry a stored value was read from: the address the Entry was loaded from
+	entryOf := func(v ssa.Value, fld *types.Var) string {
+		f, base, ok := loadedField(stripConv(v))
+		if !ok || f != fld {
+			return ""
+		}
+		// base: the entry value (loaded from an element address) or an address
+		if ld, ok := base.(*ssa.UnOp); ok {
+			return exprKey(ld.X)
+		}
+		if fa, ok := base.(*ssa.FieldAddr); ok {
+			return exprKey(fa.X)
+		}
+		return exprKey(base)
+	}
+	var ik, tk string
+	var ti ssa.Instruction
+	forEachInstr(fn, func(in ssa.Instruction) {
+		st, ok := in.(*ssa.Store)
+		if !ok {
+			return
+		}
+		f, _, ok := fieldOfAddr(st.Addr)
+		if !ok {
+			return
+		}
+		if f == idxF {
+			ik = entryOf(st.Val, eIndex)
+			if ik == "" {
+				ik = "param"
+			}
+		}
+		if f == termF {
+			tk = entryOf(st.Val, eTerm)
+			ti = in
+		}
+	})
+	pos := e.pos(fn.Pos())
+	if ti != nil {
+		pos = e.ipos(ti)
+	}
+	// the index may also be stored from the acknowledged parameter (checked equal to the entry's index by the panic above it)
+	same := tk != "" && (ik == tk || ik == "param")
+	if same && ik == "param" {
+		// the term's entry must be the one indexed by (index - markerIndex)
+		marker := e.Field("internal/raft", "inMemory", "markerIndex")
+		same = false
+		forEachInstr(fn, func(in ssa.Instruction) {
+			if ia, ok := in.(*ssa.IndexAddr); ok && exprKey(ia) == tk {
+				if b, ok := stripConv(ia.Index).(*ssa.BinOp); ok && b.Op.String() == "-" && fieldV(marker)(b.Y) {
+					if _, isP := stripConv(b.X).(*ssa.Parameter); isP {
+						same = true
+					}
+				}
+			}
+		})
+	}
+	r.check(same, "DEP-applied-pair", "appliedToIndex and appliedToTerm in appliedLogTo come from the same entry", pos,
+		"the remembered (index, term) pair describes one entry",
+		"appliedLogTo remembers the term of a different entry than the one whose index it records: term(appliedIndex) answers with another entry's term")
+}
+
+// ruleAppendSetsRange (C09, C19): LogReader.Append always forwards the saved
+// range to SetRange (which extends or truncates the reader's window); only
+// an empty slice is a no-op.
+func ruleAppendSetsRange(e *Engine, r *Report) {
+	ap := r.need("(*internal/logdb.LogReader).Append")
+	sr := r.need("(*internal/logdb.LogReader).SetRange")
+	if ap == nil || sr == nil {
+		return
+	}
+	isSR := e.throughHelpers(func(c ssa.CallInstruction) bool { return e.CallsTo(c, sr) })
+	var ents VM = func(v ssa.Value) bool { p, ok := stripConv(v).(*ssa.Parameter); return ok && p.Parent() == ap && p.Name() != "lr" }
+	res := e.pathUnless(ap, nil, func(in ssa.Instruction) bool { return e.isSuccessReturn(in) }, isSR,
+		reqAny("no entries", reqCmp("", "==", lenOfV(ents), intConstV(0)), reqCmp("", "<=", lenOfV(ents), intConstV(0))))
+	var w []string
+	for _, x := range res.Witness {
+		w = append(w, e.ipos(x))
+	}
+	r.check(!res.Found, "MPT-append-setrange", "LogReader.Append hands every non-empty saved range to SetRange", e.pos(ap.Pos()),
+		"the reader's window follows what was saved, including a shorter replacement tail",
+		"LogReader.Append can return without SetRange for a non-empty range: a replaced (shorter) tail is never reflected, the reader keeps answering for truncated entries", w...)
+}
+
+// ruleDelayedRepack (C17): MessageQueue.getDelayed hands out the due records
+// and keeps every record that is not due yet: on the not-due edge of the
+// tick test the record is written back into the delayed list before the
+// next record is looked at.
+func ruleDelayedRepack(e *Engine, r *Report) {
+	gd := r.need("(*internal/server.MessageQueue).getDelayed")
+	delayed := r.needField("internal/server", "MessageQueue", "delayed")
+	if gd == nil || delayed == nil {
+		return
+	}
+	recTick := e.Field("internal/server", "delayedMessage", "tick")
+	if recTick == nil {
+		// the record type may be named differently: find the element type of the delayed slice
+		if sl, ok := delayed.Type().Underlying().(*types.Slice); ok {
+			if st := derefStruct(sl.Elem()); st != nil {
+				for i := 0; i < st.NumFields(); i++ {
+					if st.Field(i).Name() == "tick" {
+						recTick = st.Field(i)
+					}
+				}
+			}
+		}
+	}
+	if recTick == nil {
+		r.undecided("ANCHOR", "delayed record tick field", "not found")
+		return
+	}
+	isKeep := func(in ssa.Instruction) bool {
+		st, ok := in.(*ssa.Store)
+		if !ok {
+			return false
+		}
+		ia, ok := st.Addr.(*ssa.IndexAddr)
+		if !ok {
+			return false
+		}
+		f, _, ok := loadedField(ia.X)
+		return ok && f == delayed
+	}
+	n := 0
+	forEachInstr(gd, func(in ssa.Instruction) {
+		ifi, ok := in.(*ssa.If)
+		if !ok {
+			return
+		}
+		// a comparison of a record's tick with the current tick
+		isTickCmp := false
+		var dueOnTrue bool
+		for _, f := range expandFacts([]Fact{{ifi.Cond, true}}) {
+			if b, ok := f.V.(*ssa.BinOp); ok && cmpString(b.Op) != "" && (fieldV(recTick)(b.X) || fieldV(recTick)(b.Y)) {
+				isTickCmp = true
+				op := cmpString(b.Op)
+				if !f.Pol {
+					op = negCmp(op)
+				}
+				if fieldV(recTick)(b.Y) {
+					op = flipCmp(op)
+				}
+				dueOnTrue = op == "<" || op == "<="
+			}
+		}
+		if !isTickCmp {
+			return
+		}
+		n++
+		notDue := in.Block().Succs[1]
+		if !dueOnTrue {
+			notDue = in.Block().Succs[0]
+		}
+		if len(notDue.Instrs) == 0 {
+			return
+		}
+		found := false
+		if !isKeep(notDue.Instrs[0]) {
+			if notDue.Instrs[0] == in || isReturn(notDue.Instrs[0]) {
+				found = true
+			} else {
+				found = e.findPath(gd, notDue.Instrs[0], func(x ssa.Instruction) bool { return x == in || isReturn(x) }, isKeep, nil).Found
+			}
+		}
+		r.check(!found, "MPT-delayed-repack", "getDelayed keeps a record that is not due yet", e.ipos(in),
+			"not-due records stay queued", "a record that is not due yet can be dropped from the delayed list (it is neither returned nor written back): a delayed snapshot status is lost and the leader's remote stays paused")
+	})
+	r.floor("MPT-delayed-repack", n, 1)
+}
+
+// ruleReaderBoundFromFile (C14): the V2 snapshot reader limits the block
+// stream by the size of the file itself (minus header and tail), not by a
+// number read from the (possibly corrupted) file.
+func ruleReaderBoundFromFile(e *Engine, r *Report) {
+	gh := r.need("(*internal/rsm.SnapshotReader).getHeader")
+	if gh == nil {
+		return
+	}
+	n := 0
+	e.forEachInstrRegion(gh, 1, func(in ssa.Instruction) {
+		c, ok := in.(*ssa.Call)
+		if !ok {
+			return
+		}
+		sc := c.Call.StaticCallee()
+		if sc == nil || sc.Name() != "LimitReader" || sc.Pkg == nil || sc.Pkg.Pkg.Path() != "io" || len(c.Call.Args) < 2 {
+			return
+		}
+		n++
+		lim := c.Call.Args[1]
+		fromStat := e.dependsOn(lim, func(v ssa.Value) bool {
+			cc, ok := v.(*ssa.Call)
+			return ok && cc.Call.IsInvoke() && cc.Call.Method.Name() == "Size"
+		}, 2)
+		fromContent := e.dependsOn(lim, func(v ssa.Value) bool {
+			cc, ok := v.(*ssa.Call)
+			if !ok {
+				return false
+			}
+			if cc.Call.IsInvoke() {
+				return cc.Call.Method.Name() == "Uint64" || cc.Call.Method.Name() == "Uint32"
+			}
+			s2 := cc.Call.StaticCallee()
+			return s2 != nil && s2.Pkg != nil && s2.Pkg.Pkg.Path() == "encoding/binary"
+		}, 2)
+		r.check(fromStat && !fromContent, "DEP-reader-bound", "the V2 block stream in "+fname(c.Parent())+" is limited by the file size", e.ipos(in),
+			"every byte between header and tail is read and checksummed", "the block stream is limited by a number decoded from the file: a corrupted tail makes the reader return a clean prefix of the payload without an error")
+	})
+	r.floor("DEP-reader-bound", n, 1)
+}
